@@ -13,6 +13,12 @@ build mode, every input array and `n`, every prior state and dendrogram, and eve
 * `C05_unsorted_order` for centroid/median no permutation is applied: the output heights are the
                     heights in merge order (then `sqrt`).
 
+* `C05_epilogue`    (translated call sites) every `_with` in the SOURCE ends with
+                    `state.set.relabel(steps, <its method>)` (then `sqrt` for the three that square),
+                    and `relabel` in the source has the shape reset; `if requires_sorting { sort_by
+                    partial_cmp .expect }`; the seven-statement relabel loop — so a refactor that
+                    bypasses or replaces the sort in one entry point breaks the build.
+
 Number laws used (hypotheses, not axioms): `OrderLaws` (`<` is a strict weak order on non-NaN
 values) and `MonoSqrt`.  Both are true of IEEE f32/f64 including NaN handling; the sort itself
 panics (model: `Panic.nanInSort`) when a NaN height is present.
@@ -22,6 +28,7 @@ sort / relabel / sqrt in each `_with` is hand-modelled and tied by the bit-exact
 -/
 import Kodama.Lemmas.Relabel
 import Kodama.Lemmas.Tail
+import Kodama.Generated.Shape
 namespace Kodama
 variable {α : Type} [Num α]
 
@@ -64,6 +71,21 @@ theorem C05_unsorted_order (m : Method) (hm : m.requiresSorting = false) (raw re
       intro l; rw [List.map_map]; rfl
     rw [e1, hh, List.map_map]
   · next ho => simp [heights, hd, ho] at hh ⊢; exact hh
+
+theorem C05_epilogue :
+    Gen.epilogue = [("primitive_with", ["relabel method", "sqrt method"]),
+                    ("nnchain_with", ["relabel method.into_method()", "sqrt method"]),
+                    ("generic_with", ["relabel method", "sqrt method"]),
+                    ("mst_with", ["relabel Method::Single"])] ∧
+    Gen.relabelShape = ["reset", "if requires_sorting", "sort_by partial_cmp expect", "for i in 0..len"] ∧
+    Gen.relabelLoop = ["let new_cluster1 = self.find(dendrogram[i].cluster1)",
+                       "let new_cluster2 = self.find(dendrogram[i].cluster2)",
+                       "self.union(new_cluster1, new_cluster2)",
+                       "let size1 = dendrogram.cluster_size(new_cluster1)",
+                       "let size2 = dendrogram.cluster_size(new_cluster2)",
+                       "dendrogram[i].set_clusters(new_cluster1, new_cluster2)",
+                       "dendrogram[i].size = size1 + size2"] := by
+  decide
 
 /-- Non-vacuity of the law bundles: a three-element strict order satisfies them. -/
 instance : Num (Fin 3) where
